@@ -191,6 +191,16 @@ PSEUDO = [
     ("ASSUME", "\tassume {a}", "a"), ("ASSUME2", "\tassume x:{a}", "a"), ("CPU", "\tcpu {a}", "a"), ("CPU-s", "\tcpu {s}", "s"), ("SUPMODE", "\tsupmode {a}", "a"), ("FPU", "\tfpu {a}", "a"), ("PMMU", "\tpmmu {a}", "a"),
     ("FULLPMMU", "\tfullpmmu {a}", "a"), ("PADDING", "\tpadding {a}", "a"), ("PACKING", "\tpacking {a}", "a"), ("BIGENDIAN", "\tbigendian {a}", "a"), ("WRAPMODE", "\twrapmode {a}", "a"),
     ("SHARED", "x\tequ 1\n\tshared x,{a}", "a"), ("GLOBAL", "\tglobal {a}", "a"), ("PUBLIC", "\tpublic {a}", "a"), ("FORWARD", "\tsection s\n\tforward {a}\n\tendsection", "a"),
+    # declarations inside sections: every mix and order of FORWARD / PUBLIC / GLOBAL with their definitions (the three declaration
+    # lists of a section are searched and unlinked one after the other when a symbol is defined)
+    ("SECT-fwd-pub", "\tsection s\n\tforward f1\n\tpublic p1\np1:\tnop\nf1:\tnop\n\tendsection\n\tnop", ""),
+    ("SECT-pub-fwd", "\tsection s\n\tpublic p1\n\tforward f1\nf1:\tnop\np1:\tnop\n\tendsection", ""),
+    ("SECT-all", "\tsection s\n\tglobal g1\n\tforward f1,f2\n\tpublic p1,p2\np2:\tnop\ng1:\tnop\nf2:\tnop\np1:\tnop\nf1:\tnop\n\tendsection\n\tnop", ""),
+    ("SECT-all2", "\tsection s\n\tforward f1\n\tglobal g1,g2\n\tpublic p1\ng2:\tnop\np1:\tnop\ng1:\tnop\n\tendsection", ""),
+    ("SECT-nested", "\tsection a\n\tforward fa\n\tsection b\n\tpublic pb:a\n\tforward fb\npb:\tnop\nfb:\tnop\n\tendsection\n\tpublic pa\npa:\tnop\nfa:\tnop\n\tendsection\n\tnop", ""),
+    ("SECT-undef-fwd", "\tsection s\n\tforward f1\n\tpublic p1\np1:\tnop\n\tendsection", ""),
+    ("SECT-decl-arg", "\tsection s\n\tforward {a}\n\tpublic {b}\n\tglobal {a}\nx:\tnop\n\tendsection", "ab"),
+    ("SECT-twice", "\tsection s\n\tpublic p1\n\tpublic p1\n\tforward p1\np1:\tnop\np1:\tnop\n\tendsection", ""),
     ("SECTION", "\tsection {a}\n\tendsection {b}", "ab"), ("ENDSECTION", "\tendsection", ""), ("SECTION-open", "\tsection s", ""), ("SECTION-sym", "\tsection s\nx\tequ 1\n\tendsection\ny\tequ x[{a}]", "a"),
     ("SYM-sect", "y\tequ x[]+x[{a}]+[{b}]", "ab"), ("EXPECT", "\texpect {a}\n\tnop\n\tendexpect", "a"), ("ENDEXPECT", "\tendexpect", ""), ("EXPECT-open", "\texpect 1000", ""),
     ("READ", "\tread {s},x", "s"), ("READ0", "\tread x", ""), ("DEPEND", "\tdepend {s}", "s"), ("OUTRADIX-msg", "\toutradix {a}\n\tmessage \"\\{{-1}}\"", "a"),
